@@ -149,6 +149,53 @@ def judge(ctx, scn, rep, err):
     return exp
 
 
+def gen_stop(r, k):
+    """several seeds behind one busy WARC writer, and a stop request in the middle: whatever is acknowledged as finished - before, during or
+    after the stop - must have its records on disk at that very moment"""
+    site = {"/w%d/big.bin" % k: {"ctype": "application/octet-stream", "body": {"kind": "bin", "size": r.choice([12000000, 25000000]), "seed": 3}}}
+    seeds = ["/w%d/big.bin" % k]
+    for i in range(r.randrange(6, 12)):
+        site["/w%d/p%d" % (k, i)] = {"ctype": "text/plain", "body": {"kind": "text", "size": r.choice([300, 3000, 60000]), "seed": i}, "delayMs": r.choice([0, 0, 40])}
+        seeds.append("/w%d/p%d" % (k, i))
+    cfg = {"workers": r.choice([2, 4]), "maxConcurrentAssets": 1, "maxRetry": 0, "httpTimeout": 10, "hqBatchSize": 1, "warcPoolSize": 1, "discardStatus": []}
+    return {"useHQ": True, "snapshotAtAck": True, "seeds": seeds, "site": site, "cfg": cfg, "kind": "stop-behind-busy-writer",
+            "stop": {"when": "requests", "n": r.randrange(3, len(seeds)), "extraMs": r.choice([0, 30, 150]), "timeoutMs": 30000, "stopTimeoutMs": 40000}}
+
+
+def judge_stop(ctx, scn, rep, err):
+    rp = {"domain": "e2e", "scenario": scn}
+    ctx.count("stop-crawls")
+    if rep.get("died") or rep.get("harnessTimeout") or rep.get("stopPanic") or rep.get("stopHung"):
+        ctx.violation("the crawl stopped behind a busy WARC writer did not end cleanly: %s" % {k: v for k, v in rep.items() if k in ("died", "panic", "stopPanic", "stopHung", "harnessTimeout")}, rp)
+        return
+    base = rep["base"]
+    sent = {}
+    for q in rep.get("requests") or []:
+        if q["mode"] == "ok":
+            sent[q["key"]] = q
+    nack = 0
+    for a in rep.get("acks") or []:
+        sid = a.get("id", "")
+        try:
+            path = scn["seeds"][int(sid[1:])]
+        except (ValueError, IndexError):
+            continue
+        nack += 1
+        q = sent.get(path)
+        if q is None:
+            continue          # acknowledged without a completed exchange (failed / cut by the stop): nothing to store
+        if "%s %d" % (base + path, q["status"]) not in (a.get("onDisk") or []):
+            ctx.violation("seed %s (%s) was acknowledged as finished %s while its %d response (%d bytes) was not in the WARC files on disk (stop after %d requests, one "
+                          "WARC writer busy with a large record)" % (sid, path, "during / after the stop request" if a.get("requestsBefore", 0) >= scn["stop"]["n"] else "",
+                                                                    q["status"], q["len"], scn["stop"]["n"]), dict(rp, url=path))
+            return
+    for rc in rep.get("warcRecords") or []:
+        if not rc["complete"] or rc.get("err"):
+            ctx.violation("incomplete / unreadable record on disk after the stop: %s" % rc, rp); return
+    ctx.case(json.dumps([scn["cfg"], scn["stop"], len(scn["seeds"])]), nack >= 1)
+    ctx.count("stop-crawls:acks", nack)
+
+
 def tables(ctx, exps):
     """the discard / retry decisions the crawl revealed, against the model's tables"""
     lines, meta = [], []
@@ -185,9 +232,13 @@ def run(ctx):
     for f in sorted(os.listdir(d)) if os.path.isdir(d) else []:
         scns.append(json.load(open(os.path.join(d, f)))["scenario"])
     scns += [gen(ctx.rng, k, ctx.thorough()) for k in range(n)]
+    scns += [gen_stop(ctx.rng, k) for k in range(24 if ctx.thorough() else 3)]
     results = e2e.run_many(scns, timeout=180, workers=8)
     exps = []
     for scn, (rep, err) in zip(scns, results):
+        if scn.get("kind") == "stop-behind-busy-writer":
+            judge_stop(ctx, scn, rep, err)
+            continue
         exp = judge(ctx, scn, rep, err)
         if exp is not None:
             exps.append((scn, exp, rep))
@@ -201,6 +252,10 @@ def run(ctx):
 
 def replay(ctx, doc):
     rp = doc.get("replay", doc)
+    if "scenario" in rp and rp["scenario"].get("kind") == "stop-behind-busy-writer":
+        rep, err = e2e.run_one(rp["scenario"], timeout=180)
+        judge_stop(ctx, rp["scenario"], rep, err)
+        return
     if "scenario" in rp:
         rep, err = e2e.run_one(rp["scenario"], timeout=180)
         judge(ctx, rp["scenario"], rep, err)
